@@ -157,9 +157,9 @@ func (o *stmtObs) clauses(unit time.Duration) rt.M {
 		for _, s := range o.sel.Sources {
 			switch m := s.(type) {
 			case *influxql.Measurement:
-				srcs = append(srcs, m.Database+"."+m.RetentionPolicy)
+				srcs = append(srcs, rt.M{"db": m.Database, "rp": m.RetentionPolicy}) // the pair as written
 			default:
-				srcs = append(srcs, "sub")
+				srcs = append(srcs, pair("sub"))
 			}
 		}
 	}
@@ -387,6 +387,8 @@ type taskCfg struct {
 	Sources    []string
 	Where      string
 	Meas       string
+	DefaultRP  string // TaskMaster.DefaultRetentionPolicy while this task is defined and run
+	Unquoted   bool   // write FROM items without quotes: db.rp.m, db..m, m
 	unit       string // TICKscript duration suffix: s (model traces) or ms (live)
 }
 
@@ -394,6 +396,25 @@ func strs(a []string) []any {
 	out := make([]any, len(a))
 	for i, s := range a {
 		out[i] = s
+	}
+	return out
+}
+
+// A database/retention-policy pair is written "db.rp" in the driver's tables: "db." has an
+// empty rp (FROM "db".."m"), "." is a bare measurement, "sub" a subquery.  In the trace it is
+// the record {db, rp} of BatchSchedule.tla.
+func pair(s string) rt.M {
+	if s == "sub" {
+		return rt.M{"db": "?subquery", "rp": ""}
+	}
+	dr := strings.SplitN(s, ".", 2)
+	return rt.M{"db": dr[0], "rp": dr[1]}
+}
+
+func pairs(a []string) []any {
+	out := make([]any, len(a))
+	for i, s := range a {
+		out[i] = pair(s)
 	}
 	return out
 }
@@ -413,7 +434,7 @@ func (c *taskCfg) J() rt.M {
 	return rt.M{"kind": c.Kind, "every": c.Every, "align": c.Align, "p": c.P, "r": c.R,
 		"period": c.Period, "offset": c.Offset, "gbLen": c.GbLen, "gbOff": c.GbOff, "alignGroup": c.AlignGroup,
 		"tags": strs(c.Tags), "star": c.Star, "fill": c.Fill,
-		"declared": strs(c.Declared), "sources": strs(c.Sources), "user": c.user().J()}
+		"declared": pairs(c.Declared), "sources": pairs(c.Sources), "defaultRP": c.DefaultRP, "user": c.user().J()}
 }
 
 func (c *taskCfg) cronExpr() string {
@@ -434,10 +455,21 @@ func (c *taskCfg) fromClause() string {
 		case "sub":
 			parts = append(parts, fmt.Sprintf(`(SELECT v FROM "other"."rp"."%s")`, c.Meas))
 		case ".":
-			parts = append(parts, fmt.Sprintf(`"%s"`, c.Meas))
+			if c.Unquoted {
+				parts = append(parts, c.Meas)
+			} else {
+				parts = append(parts, fmt.Sprintf(`"%s"`, c.Meas))
+			}
 		default:
 			dr := strings.SplitN(s, ".", 2)
-			parts = append(parts, fmt.Sprintf(`"%s"."%s"."%s"`, dr[0], dr[1], c.Meas))
+			switch {
+			case c.Unquoted: // db.rp.m or db..m
+				parts = append(parts, fmt.Sprintf(`%s.%s.%s`, dr[0], dr[1], c.Meas))
+			case dr[1] == "": // "db".."m"
+				parts = append(parts, fmt.Sprintf(`"%s".."%s"`, dr[0], c.Meas))
+			default:
+				parts = append(parts, fmt.Sprintf(`"%s"."%s"."%s"`, dr[0], dr[1], c.Meas))
+			}
 		}
 	}
 	return strings.Join(parts, ", ")
@@ -516,6 +548,9 @@ type taskRunner struct {
 func (tr *taskRunner) newTask(c *taskCfg) *kapacitor.Task {
 	tr.n++
 	c.Meas = fmt.Sprintf("m%d", tr.n)
+	// the server setting is read by the executing task through its TaskMaster; the driver is sequential
+	// and every earlier task is stopped, so it can be set per task
+	tr.env.TM.DefaultRetentionPolicy = c.DefaultRP
 	task, err := tr.env.TM.NewTask(fmt.Sprintf("t%d", tr.n), c.script(), kapacitor.BatchTask, c.dbrps(), 0, nil)
 	if err != nil {
 		rt.Fatalf("NewTask: %v\n%s", err, c.script())
@@ -638,10 +673,11 @@ func (tr *taskRunner) mixed(declared []string, children []childCfg) {
 		}
 		c := &taskCfg{Sources: ch.srcs, Meas: fmt.Sprintf("m%dn%d", tr.n, i)}
 		fmt.Fprintf(&b, "var n%d = batch\n  |query('SELECT v FROM %s')\n    .period(10s)\n    .every(10s)\n  |log().prefix('q%d')\n", i, c.fromClause(), i)
-		kids = append(kids, rt.M{"kind": "ql", "srcs": strs(ch.srcs)})
+		kids = append(kids, rt.M{"kind": "ql", "srcs": pairs(ch.srcs)})
 	}
 	script := b.String()
 	dc := &taskCfg{Declared: declared}
+	tr.env.TM.DefaultRetentionPolicy = ""
 	task, err := tr.env.TM.NewTask(fmt.Sprintf("t%d", tr.n), script, kapacitor.BatchTask, dc.dbrps(), 0, nil)
 	if err != nil {
 		rt.Fatalf("NewTask: %v\n%s", err, script)
@@ -652,7 +688,7 @@ func (tr *taskRunner) mixed(declared []string, children []childCfg) {
 	}
 	t := tr.t
 	t.Reset(rt.M{"kind": "mixed", "script": script})
-	t.Event("Batch", rt.M{"declared": strs(declared), "children": kids, "err": ""})
+	t.Event("Batch", rt.M{"declared": pairs(declared), "children": kids, "err": ""})
 	bqs, err := et.BatchQueries(TM.T(120), TM.T(145))
 	issued := []any{}
 	nflux := 0
@@ -752,7 +788,8 @@ func (tr *taskRunner) live(c *taskCfg, want int) {
 	mine := func() []string {
 		var out []string
 		for _, q := range tr.env.Influx.QueriesFrom(0) {
-			if strings.Contains(q.Command, `"`+c.Meas+`"`) || strings.Contains(q.Command, "."+c.Meas+" ") || strings.HasSuffix(q.Command, "."+c.Meas) {
+			if strings.Contains(q.Command, `"`+c.Meas+`"`) || strings.Contains(q.Command, "."+c.Meas+" ") || strings.HasSuffix(q.Command, "."+c.Meas) ||
+				strings.Contains(q.Command, " "+c.Meas+" ") || strings.Contains(q.Command, " "+c.Meas+",") || strings.Contains(q.Command, "."+c.Meas+",") {
 				out = append(out, q.Command)
 			}
 		}
@@ -930,6 +967,35 @@ func runTasks(r *rt.Run, t *rt.Trace) error {
 			tr.live(&c2, 0)
 		}
 	}
+	// how a source is written x what the task declared x the server's default-retention-policy:
+	// db.rp.m, "db"."rp"."m", db..m, "db".."m" (no rp), a bare measurement, two sources in one FROM.
+	// Both paths: BatchQueries, and StartTask+StartBatching with a 50 ms ticker so that the text
+	// the fake InfluxDB client receives is recorded whenever the task is let through.
+	nForms := 0
+	{
+		fdecls := [][]string{{"db.rp"}, {"db.autogen"}, {"db.rp", "db."}, {"other.rp"}}
+		fsrcs := [][]string{{"db.rp"}, {"db."}, {"."}, {"db.autogen"}, {"other."}, {"db.rp", "db."}, {"db.", "db.rp"}, {"db.rp", "."}}
+		for _, drp := range []string{"", "autogen", "rp"} {
+			for _, d := range fdecls {
+				for _, sl := range fsrcs {
+					for _, unq := range []bool{false, true} {
+						c := mk()
+						c.Every, c.Period, c.Declared, c.Sources, c.DefaultRP, c.Unquoted = 10, 10, d, sl, drp, unq
+						tr.hist(c, [][2]int{{base, base + 25}})
+						c2 := *c
+						c2.unit = "ms"
+						c2.Every, c2.Align, c2.Period, c2.Offset = 50, false, 70, 0
+						c2.GbLen, c2.GbOff, c2.AlignGroup = 0, 0, false
+						c2.Where = leafFix(wheres[1]) // no absolute user time predicate next to wall-clock ranges
+						tr.live(&c2, 1)
+						nForms += 2
+					}
+				}
+			}
+		}
+		tr.env.TM.DefaultRetentionPolicy = ""
+	}
+	r.Extra["task_traces_source_forms"] = nForms
 	// mixed Flux / InfluxQL children of one batch source: 1-2 |queryFlux and 1-2 |query nodes, both
 	// orders and interleaved, each |query reading a declared or an undeclared database
 	nMixed := 0
@@ -966,7 +1032,7 @@ func runTasks(r *rt.Run, t *rt.Trace) error {
 		}
 	}
 	r.Extra["task_traces_mixed_flux"] = nMixed
-	nDBRP := tr.n - nHist - nMixed
+	nDBRP := tr.n - nHist - nMixed - nForms
 	// seeded random settings and spans
 	nRand := 40
 	if r.Thorough() {
@@ -1050,6 +1116,6 @@ func Run(r *rt.Run) error {
 	if err := runTasks(r, t); err != nil {
 		return err
 	}
-	r.Finish("Query objects: real NewQuery/SetStartTime/SetStopTime/Clone/String over every WHERE shape of {leaf, AND, OR, parentheses} up to depth 2 (plain and with each leaf replaced by each user time predicate), depth-3 shapes, and seeded random ones; batch tasks: real ExecutingTask.BatchQueries for every()/align()/cron()/offset/period settings over every phase of the start time and several span lengths, group-by/fill variants, declared-vs-queried DBRPs through BatchQueries and StartBatching (also for batch sources mixing |query and |queryFlux children in every order), seeded random settings, and the real tickers run against a fake InfluxDB client; every issued statement is re-parsed with influxql and judged by TLC; non-trivial = condition with >= 2 atoms / call returning >= 2 queries, distinct by input", false)
+	r.Finish("Query objects: real NewQuery/SetStartTime/SetStopTime/Clone/String over every WHERE shape of {leaf, AND, OR, parentheses} up to depth 2 (plain and with each leaf replaced by each user time predicate), depth-3 shapes, and seeded random ones; batch tasks: real ExecutingTask.BatchQueries for every()/align()/cron()/offset/period settings over every phase of the start time and several span lengths, group-by/fill variants, declared-vs-queried DBRPs through BatchQueries and StartBatching (every way of writing a source - with/without retention policy, quoted or not, bare, two per FROM - under each default-retention-policy setting; batch sources mixing |query and |queryFlux children in every order), seeded random settings, and the real tickers run against a fake InfluxDB client; every issued statement is re-parsed with influxql and judged by TLC; non-trivial = condition with >= 2 atoms / call returning >= 2 queries, distinct by input", false)
 	return nil
 }
